@@ -41,7 +41,8 @@ Report(b) == /\ (IF b = <<>> \/ Len(TLCGet(1)) >= MaxBad THEN TRUE ELSE TLCSet(1
 
 \* the invariants of Concurrency restricted to the goroutines of a run (G is a constant of the model; runs have up to GMax)
 TG == 1..TraceLog[c].n
-TExclusive(in, p) == \A g, h \in TG : g # h /\ in[g] # 0 /\ p[g] # "put" /\ in[h] # 0 /\ p[h] # "put" => in[g] # in[h]
+\* Exclusive restricted to the pairs an event of goroutine g can change (all other pairs were judged by earlier events)
+TExclusive(g, in, p) == \A h \in TG : g # h /\ in[g] # 0 /\ p[g] # "put" /\ in[h] # 0 /\ p[h] # "put" => in[g] # in[h]
 TIsolationBreaches(hd, bf) == {<<g, x>> \in UNION {{g} \X hd[g] : g \in TG} : x.ref # 0 /\ bf[x.ref][1] # g}
 TNoUnlockedWriteRead(rd, wr) == \A w \in wr : \A x \in rd \cup wr : x = w \/ x[2] # w[2]
 
@@ -50,7 +51,7 @@ Same == UNCHANGED <<prog, k, free, nextInst, val, lock, cached, miss, sched>>
 TGet == /\ Ev.e = "get"
         /\ LET in == [inst EXCEPT ![Ev.g] = Ev.i]
                p  == [pc EXCEPT ![Ev.g] = "got"]
-           IN /\ Report(IF TExclusive(in, p) THEN <<>> ELSE <<Rec("exclusive", Ev.p, Ev.p)>>)
+           IN /\ Report(IF TExclusive(Ev.g, in, p) THEN <<>> ELSE <<Rec("exclusive", Ev.p, Ev.p)>>)
               /\ inst' = in /\ pc' = p
         /\ Same /\ UNCHANGED <<buf, held, result, reading, writing>>
 TPut == /\ Ev.e = "put"
